@@ -34,6 +34,7 @@ func (kc *kernelCtx) fieldType(typeName, field string) types.Type {
 }
 
 type GenOutput struct {
+	Rebound []string `json:"rebound,omitempty"` // units verified under a renaming of identifiers
 	Repo        string   `json:"repo"`
 	Packages    []string `json:"packages"`
 	Contracts   []string `json:"contract_files"`
@@ -125,6 +126,9 @@ func cmdGen(args []string) {
 		}
 		for _, e := range u.Errs {
 			res.Errors = append(res.Errors, u.Name+": "+e)
+		}
+		if u.Rebound != "" {
+			res.Rebound = append(res.Rebound, u.Name+": "+u.Rebound)
 		}
 		for _, o := range u.Obls {
 			if len(want) > 0 {
